@@ -27,15 +27,25 @@ def P(design, technique, explanation, level_text, tb=None, assumptions=None, par
 
 PROPS = {
  "C01": P("DESIGN.md 7 C01",
-   "Lean 4 proof (encoder and parser each refine the CBOR grammar; composition) + differential correspondence",
+   "Lean 4 proof (encoder and parser each refine the format's grammar; composition; CBOR and UBJSON in full, JSON as two halves meeting at the RFC 8259 reference decoder) + differential correspondence",
    "cbor_roundtrip: for every contract-conforming event tree with in-range numbers the CBOR encoder's bytes are accepted by "
    "the CBOR parser with events building the same value. Proof = enc_tree (encoder writes the wire form of an item) o "
-   "value_lemma (parser delivers the item's events), mutual structural induction, no size bound. Correspondence: op `rt` "
-   "(encode, then Parse) on renditions of random values x all kinds x boundary integers x all bytes as strings/keys x "
-   "float specials x JSON options; oracle: value of the parsed events = value of the stream up to the format's "
-   "documented representation changes (approxUbj / approxJson).",
-   "Kernel-checked round-trip theorem for CBOR over all well-formed streams; UBJSON/JSON by executable mirror, "
-   "correspondence and specification oracle."),
+   "value_lemma (parser delivers the item's events), mutual structural induction, no size bound. "
+   "PropsUbj.C01 ubj_roundtrip / ubj_roundtrip_ext: the same for UBJSON (basic and extended events): the encoder's bytes are "
+   "accepted by the UBJSON parser, which ends idle having delivered ONE contract-conforming document whose value is the "
+   "tree's up to the documented representation change (uint64 > MaxInt64 -> decimal string), exactly equal otherwise, and "
+   "the draft-12 reference decoder reads the same value; proved through a bridge between the encoder-side and the "
+   "parser-side grammar (SF/Proofs/UbjBridge*.lean); the range condition on numbers is shown necessary (OnInt8(300) reads back as 44). "
+   "JSON: C07 json_output_decodes (encoder text decodes to the value) and C04 json_reads_value (parser reads every "
+   "grammatical text as the reference value) meet at SF/Json/Cst.lean; the composed statement is decided by the correspondence. "
+   "Correspondence: op `rt` (encode, Parse whole, then re-parse byte-wise through ParseReader) on renditions of random values "
+   "x all kinds x boundary integers x all bytes as strings/keys x float specials x JSON options x strings/keys whose length "
+   "byte is a marker of the format x several long escaped strings per document; oracle: value of the parsed events = value "
+   "of the stream up to the format's documented representation changes (approxUbj / approxJson), independent of how the bytes arrive.",
+   "Kernel-checked round-trip theorems for CBOR and UBJSON over all well-formed streams; JSON by two kernel-checked halves plus "
+   "executable mirror, correspondence and specification oracle.",
+   partial="JSON: the encoder theorem and the parser theorem are not composed into one round-trip statement (floats: the encoder's shortest "
+           "round-tripping decimal is decided by oracle, not proved)"),
  "C02": P("DESIGN.md 7 C02",
    "Lean 4 proof (full chunk-independence theorem for the CBOR parser: same events and same verdict for every byte string, every chunking, every visitor fault index) + differential correspondence over cut sets",
    "cbor_chunk_independent / cbor_chunk_independent_failAt / cbor_chunkings_agree / cbor_chunk_independent_reach: for every "
@@ -69,12 +79,18 @@ PROPS = {
    "an event); wall-clock and heap are runtime facts (partial by nature).",
    partial="UBJSON: an a-priori bound on the number of events is not proved (a linear one is false: known finding on payload-free counts); UBJSON truncation clause by oracle; wall-clock time and real heap cannot be exhibited by the model"),
  "C04": P("DESIGN.md 7 C04",
-   "Lean 4 proof (integer-literal layer exact, never wraps) + differential correspondence + RFC 8259 reference decoder as oracle",
+   "Lean 4 proof (the JSON parser refines the RFC 8259 grammar: every grammatical text, stream and chunking is read with its value; integer-literal layer exact, never wraps) + differential correspondence + RFC 8259 reference decoder as oracle",
    "int_literal_exact_partial / parseUint_exact: every integer literal is reported with exactly its value as int64/uint64 "
    "or refused when outside [-2^63, 2^64). Correspondence: op `parse json` on foreign-producer texts; oracle: "
-   "SF/Json/Cst.lean (independent reference decoder, correctly rounded floats by exact rational arithmetic).",
-   "Integer layer proved (partial); strings/structure by mirror + correspondence + reference-decoder oracle.",
-   partial="unquote and the structural state machine not yet proved against the grammar"),
+   "SF/Json/Cst.lean (independent reference decoder, correctly rounded floats by exact rational arithmetic)."
+   " PropsJsonP.C04: json_reads_value / json_reads_stream / json_reads_stream_chunks: EVERY grammatical RFC 8259 text (grammar "
+   "SF/Proofs/JsonGrammar.lean: any whitespace, nesting, every escape incl. surrogate pairs, integers and floats) is accepted and "
+   "delivered as exactly the value the grammar assigns, also as a stream of texts and under every chunking; rfc_string_value / "
+   "integer_value_ref / number_value tie strings and numbers to the independent reference lexer of SF/Json/Cst.lean.",
+   "Kernel-checked: every grammatical text is read with its value (streams, every chunking); float conversion delegated to strconv "
+   "is modelled by exact rational rounding and checked by oracle.",
+   partial="float literals: the mirror calls the specification's correctly rounded conversion where the code calls strconv.ParseFloat "
+           "(tied by correspondence; one known finding beyond 800 digits); refusal of ungrammatical texts: reference-decoder oracle + C03 theorems"),
  "C05": P("DESIGN.md 7 C05",
    "Lean 4 proof (parser refines the RFC 7049-subset grammar, mutual structural induction) + differential correspondence",
    "parse_supported: for every stream of well-formed items of the supported subset (any argument width, definite/"
@@ -93,7 +109,9 @@ PROPS = {
    "arrays and objects, nested typed containers, no-ops); int_roundtrip_partial, twos_read_*: every integer of every fixed "
    "width over the whole range. "
    "Correspondence: op `parse ubj` on foreign-encoder documents (all length markers, counted/typed containers nested, "
-   "payload-free types, no-ops); oracle: SF/Ubjson/Cst.lean.",
+   "payload-free types, no-ops); oracle: SF/Ubjson/Cst.lean."
+   " PropsUbjRef.C06 parser_agrees_with_reference / ubj_grammar_bridge: on every well-formed item of the encoder-side grammar "
+   "(no size bound) the events the parser delivers build the value the independently written draft-12 reference decoder reads from the same bytes.",
    "Kernel-checked in full against the grammar of SF/Proofs/UbjItem.lean (a fuel side condition of the MODEL only: at most 10^6 "
    "payload-free elements per typed array, cf. the known finding); refusal of what is outside the grammar: reference-decoder oracle.",
    partial="the converse (everything accepted is grammatical) is decided by the reference-decoder oracle, not proved"),
@@ -117,9 +135,13 @@ PROPS = {
    " PropsX.C08: cbor_to_ubjson (valid UBJSON item, read back by the UBJSON reference decoder as the source's value up to the "
    "documented uint64 > MaxInt64 change, exactly equal otherwise) and cbor_to_json (float-free sources with UTF-8 strings: "
    "accepted by the RFC 8259 reference decoder with the source's value), by composing the CBOR parser refinement with the "
-   "UBJSON / JSON encoder theorems; chunking: C02 (CBOR parser events do not depend on it).",
-   "Kernel-checked for CBOR->CBOR, CBOR->UBJSON, CBOR->JSON (float-free); the six pairs with UBJSON / JSON as source by composed mirrors + correspondence + oracle.",
-   partial="pairs with a UBJSON or JSON source: need the parser refinement theorems of those formats (in progress)"),
+   "UBJSON / JSON encoder theorems; chunking: C02 (CBOR parser events do not depend on it)."
+   " PropsUbjSrc.C08: ubjson_to_ubjson (exactly the source's value, read back by reference decoder AND parser), ubjson_to_cbor (well-formed RFC 7049 item "
+   "with the source's value; `sized` follows from wire.length < 2^63), ubjson_to_json (float-free, UTF-8), for every grammatical UBJSON item in any spelling.",
+   "Kernel-checked for the six pairs with a CBOR or UBJSON source (JSON targets: float-free sources); the three pairs with a JSON source by the JSON parser "
+   "theorem (C04) + composed mirrors + correspondence + oracle.",
+   partial="pairs with a JSON source: json_reads_value gives the events; their composition with the three encoder theorems is not yet stated; "
+           "float-carrying sources into JSON (shortest decimal) by oracle"),
  "C09": P("DESIGN.md 7 C09",
    "Lean 4 proof (contract automaton WF on event trees; CBOR parser; adapters) + WF monitor as oracle on every stream",
    "tree_events_wf (generic), cbor_parser_wf (every accepted supported stream), expand_array_wf / expand_map_wf (all 29 "
@@ -153,19 +175,19 @@ PROPS = {
    assumptions=GOTYPE_ASSUME,
    partial="fold_unfold_id over all supported types and values (statement in Props/C11.lean) not yet proved; decided by oracle on generated types x values x paths"),
  "C12": P("DESIGN.md 7 C12",
-   "Lean 4 proof (code's tag parser = documented tag grammar for every tag string; announced-length rule) + differential correspondence of the Fold mirror + independent Rules specification as oracle",
-   "tag_rules_agree: for every tag string the code's parseTags and the documented grammar (Rules.parseTag) agree on member "
-   "name, dropped (- / omit), inlined (inline / squash) and omitempty, whatever the order, repetition, spacing and unknown "
-   "options (induction over the option list). announced_length_rule: a struct announces its member count only if no kept "
-   "field is omitempty or inlined. Correspondence: ops `fold` (type x value x fault index -> extended events + outcome, "
-   "map order taken from the implementation), `fold-seq` (one iterator vs fresh iterators), `typeinfo` (reflect description "
-   "of every menagerie type vs the Lean descriptor), `goval`. Oracle: SF/Gotype/Rules.lean, a recursive definition of the "
-   "VALUE a Go value folds to, written from the documentation only (tags.go comment, README, CHANGELOG); compared with "
-   "the value built from the emitted events up to map order.",
-   "Kernel-checked tag rules over all tag strings; the value-level statement Fold = Rules over all types x values by mirror + correspondence + oracle.",
-   tb=["model: SF/Gotype/Fold.lean (mirror of gotype/fold*.go, tags.go), SF/Gotype/Types.lean (type/value universe, menagerie); spec: SF/Gotype/Rules.lean"],
-   assumptions=GOTYPE_ASSUME,
-   partial="Fold.impl agrees with Rules.fold for all types and values: not yet proved (decided by oracle on generated types x values)"),
+   "Lean 4 proof (the Fold mirror agrees with the independent Rules specification on a decidable universe of types x all their values, both directions; tag parser = documented tag grammar for every tag string) + differential correspondence of the Fold mirror + Rules as oracle",
+   "fold_agrees / fold_agrees_inputs: for EVERY type of the universe goodT (all scalar kinds, interface{}, slices, arrays incl. typed-array fast paths, pointers, "
+   "string-keyed maps under ANY iteration order, structs with ARBITRARY tag strings incl. omitempty on interface fields and inline/squash, named types "
+   "without methods) and every value of it, if the rules give r the mirror returns ok and its events build a value Rules.agrees accepts for r; fold_refuses: "
+   "when the rules refuse (unsupported kind reached, non-string map key, inline+omitempty, inline on a non-object) the mirror returns a Go error, never ok / panic; "
+   "fold_total: both; fold_agrees_rec: agreement for self-recursive named types. tag_rules_agree: for every tag string the code's parseTags and the documented "
+   "grammar agree on member name, dropped, inlined, omitempty; announced_length_rule. The numeric side conditions are the fixed fuels of the two executable "
+   "definitions, proved sufficient (SF/Proofs/Fold*.lean, Rec*.lean, 33 files). Correspondence: ops `fold` (type x value x fault index -> extended events + outcome, "
+   "map order taken from the implementation), `fold-seq`, `typeinfo` (reflect description of every menagerie type vs the Lean descriptor), `goval`, `foldifc`, "
+   "`foldopts` (shared option values). Oracle: SF/Gotype/Rules.lean, written from the documentation only (tags.go comment, README, CHANGELOG).",
+   "Kernel-checked: mirror = rules on the universe goodT (both directions) and on self-recursive types; outside the universe by mirror + correspondence + oracle.",
+   partial="outside the proved universe (decided by oracle + correspondence): inline fields of interface kind, named types with Fold / IsZero methods or a "
+           "registered fold function (rule 2: what the folder emits), mutually recursive types, the error direction for recursive types"),
  "C13": P("DESIGN.md 7 C13",
    "Lean 4 proof (ignore state machine swallows one complete value of any shape and restores the context exactly) + differential correspondence of the Unfolder mirror + specification oracle",
    "unknown_member_skipped / unknown_members_skipped / ignore_swallows_value: for every context (target, stacks, buffers, "
@@ -235,18 +257,24 @@ PROPS = {
    "/ the injected error is returned and no further event delivered."
    " PropsUbj.C16: ubj_encoder_reports_write_errors / ubj_encoder_failing_event: the same for the UBJSON encoder over every "
    "stream of basic and extended events, every start state, every fault index (at most one Write ever fails; the failing "
-   "event is the one that returns the error).",
-   "Kernel-checked for the CBOR encoder, the CBOR parser and the UBJSON encoder; the rest by mirror + correspondence + oracle.",
-   partial="JSON encoder, UBJSON/JSON parsers, gotype fold/unfold: mirror + correspondence, no theorem yet"),
+   "event is the one that returns the error)."
+   " PropsJson.C16 json_encoder_reports_write_errors / json_encoder_success_iff_no_write_failed; PropsJsonP.C16 json_parser_returns_visitor_error / "
+   "json_writeChunks_returns_visitor_error (every byte string, chunking, fault index). Pull decoders: op `decf` (failing visitor at every event).",
+   "Kernel-checked for the CBOR, UBJSON and JSON encoders and the CBOR and JSON parsers; UBJSON parser, decoders, gotype fold/unfold by mirror + correspondence + oracle.",
+   partial="UBJSON parser, pull decoders, gotype fold/unfold: mirror + exhaustive fault-index correspondence, no theorem yet"),
  "C17": P("DESIGN.md 7 C17",
    "Lean 4 proof (documents restore every stack; reuse = fresh by induction on histories) + differential correspondence with depth hooks",
    "cbor_encoder_reuse / cbor_parser_reuse / cbor_parser_idle. Correspondence: ops `reuse-enc` / `reuse-parse` (histories "
    "of 1..8 documents on one instance, probe compared with a fresh instance, depths at every boundary)."
    " PropsUbj.C17: ubj_encoder_doc_stack / ubj_encoder_reuse / ubj_encoder_reuse_ext: every document restores the UBJSON "
    "encoder's length stack; after any history of documents (also with extended events) any probe stream yields the bytes, "
-   "result and stack of a new encoder. Unfolder: Props/C14 reset_then_setTarget_is_fresh; fold iterator: op fold-seq.",
-   "Kernel-checked for the CBOR encoder and parser and the UBJSON encoder; other components by mirror + correspondence + oracle.",
-   partial="JSON encoder/parser, UBJSON parser, pull decoders, fold iterator, unfolder after complete documents: no theorem yet"),
+   "result and stack of a new encoder. PropsJson.C17 json_encoder_doc_idle / json_encoder_reuse; PropsJsonP.C17 json_parse_accepted_idle / json_parser_reuse "
+   "(after any accepted history the JSON parser is idle and reads a grammatical probe as a new parser does). PropsUbjP.C17 ubj_parser_frame / "
+   "ubj_parser_reuse_any / ubj_parser_reuse_chunks: after any history of grammatical documents the UBJSON parser is idle up to its event log and the scratch "
+   "field valueType, and for EVERY probe byte string (malformed and truncated included, any chunking) returns the verdict and events of a new parser "
+   "(frame theorem over every reachable state without a live typed-array header). Unfolder: Props/C14 reset_then_setTarget_is_fresh; fold iterator: ops fold-seq, foldopts.",
+   "Kernel-checked for encoder and parser of all three formats; pull decoders, fold iterator and unfolder by mirror + correspondence + oracle (unfolder: C14 theorem).",
+   partial="pull decoders of UBJSON / JSON, fold iterator: no theorem yet; JSON parser: probes restricted to grammatical texts"),
  "C18": P("DESIGN.md 7 C18",
    "Lean 4 proof (CBOR decoder, byte-slice and reader-driven: one value per Next then clean EOF for every split into reads; truncation => unexpectedEOF; read-size independence on arbitrary bytes; termination) + differential correspondence over read scripts",
    "reader_decoder_stream / reader_decoder_truncated(_one) / reader_chunking_independent / reader_eq_bytes_decoder / "
